@@ -420,12 +420,35 @@ theorem inv_del {c : Cfg} {P : Obj → Prop} {kv kv' : KV} {m : Abs} (hk : KeysO
 
 /-! ### Which errors can come out -/
 
-theorem Tx.put_err {t : Tx} {k : Str} {v : Val} {e : Err} (h : t.put k v = .error e) :
+/-- No key of the bucket names a nested bucket. -/
+def NoBucket (kv : KV) : Prop := ∀ k, kvGet kv k ≠ some .bucket
+
+theorem NoBucket.put {kv : KV} (h : NoBucket kv) (k : Str) {v : Val} (hv : v ≠ .bucket) : NoBucket (kvPut kv k v) := by
+  intro k'
+  rw [kvGet_put]
+  split
+  · intro he; exact hv (Option.some.inj he)
+  · exact h k'
+
+theorem NoBucket.del {kv : KV} (h : NoBucket kv) (k : Str) : NoBucket (kvDel kv k) := by
+  intro k'
+  rw [kvGet_del]
+  split
+  · simp
+  · exact h k'
+
+theorem Inv.noBucket {c : Cfg} {P : Obj → Prop} {kv : KV} {m : Abs} (hi : Inv c P kv m) : NoBucket kv := by
+  intro k hk
+  rcases hi.only k _ hk with ⟨_, _, _, hv⟩ | ⟨_, _, _, _, _, hv⟩ <;> cases hv
+
+theorem Tx.put_err {t : Tx} {k : Str} {v : Val} {e : Err} (hnb : NoBucket t.kv) (h : t.put k v = .error e) :
     e = .io ∧ t.failAt.isSome = true := by
   unfold Tx.put at h
   split at h
   · rename_i hf; cases h; simp [hf]
-  · cases h
+  · split at h
+    · rename_i hb; exact absurd hb (hnb k)
+    · cases h
 
 theorem Tx.delete_err {t : Tx} {k : Str} {e : Err} (h : t.delete k = .error e) :
     e = .io ∧ t.failAt.isSome = true := by
@@ -435,38 +458,42 @@ theorem Tx.delete_err {t : Tx} {k : Str} {e : Err} (h : t.delete k = .error e) :
   · cases h
 
 theorem putIndexes_err (c : Cfg) (o : Obj) (old : Option Obj) :
-    ∀ (L : List Index) (t : Tx) (e : Err), putIndexes c o old L t = .error e → e = .io ∧ t.failAt.isSome = true := by
+    ∀ (L : List Index) (t : Tx) (e : Err), NoBucket t.kv → putIndexes c o old L t = .error e →
+      e = .io ∧ t.failAt.isSome = true := by
   intro L
   induction L with
-  | nil => intro t e h; simp [putIndexes] at h
+  | nil => intro t e _ h; simp [putIndexes] at h
   | cons idx rest ih =>
-    intro t e h
+    intro t e hnb h
     unfold putIndexes at h
     cases old with
     | none =>
       simp only [Option.isNone_none, Bool.true_or, ↓reduceIte] at h
       cases hp : t.put (indexKey c idx.name (idx.valueOf o)) (.ref o.id) with
-      | error e' => rw [hp] at h; simp only at h; cases h; exact Tx.put_err hp
+      | error e' => rw [hp] at h; simp only at h; cases h; exact Tx.put_err hnb hp
       | ok t1 =>
         rw [hp] at h
         simp only at h
-        rw [← (Tx.put_ok hp).2]; exact ih t1 e h
+        have hnb1 : NoBucket t1.kv := by rw [(Tx.put_ok hp).1]; exact hnb.put _ (by simp)
+        rw [← (Tx.put_ok hp).2]; exact ih t1 e hnb1 h
     | some x =>
       simp only [Option.isNone_some, Bool.false_or] at h
       split at h
       · cases hp : t.put (indexKey c idx.name (idx.valueOf o)) (.ref o.id) with
-        | error e' => rw [hp] at h; simp only at h; cases h; exact Tx.put_err hp
+        | error e' => rw [hp] at h; simp only at h; cases h; exact Tx.put_err hnb hp
         | ok t1 =>
           rw [hp] at h
           simp only at h
           have hf := (Tx.put_ok hp).2
+          have hnb1 : NoBucket t1.kv := by rw [(Tx.put_ok hp).1]; exact hnb.put _ (by simp)
           cases hd : t1.delete (indexKey c idx.name (idx.valueOf x)) with
           | error e' => rw [hd] at h; simp only at h; cases h; rw [← hf]; exact Tx.delete_err hd
           | ok t2 =>
             rw [hd] at h
             simp only at h
-            rw [← hf, ← (Tx.delete_ok hd).2]; exact ih t2 e h
-      · exact ih t e h
+            have hnb2 : NoBucket t2.kv := by rw [(Tx.delete_ok hd).1]; exact hnb1.del _
+            rw [← hf, ← (Tx.delete_ok hd).2]; exact ih t2 e hnb2 h
+      · exact ih t e hnb h
 
 theorem delIndexes_err (c : Cfg) (o : Obj) :
     ∀ (L : List Index) (t : Tx) (e : Err), delIndexes c o L t = .error e → e = .io ∧ t.failAt.isSome = true := by
@@ -492,6 +519,7 @@ theorem putTx_result {c : Cfg} {P : Obj → Prop} {kv : KV} {m : Abs} (hk : Keys
               else (∃ t', putTx c t o ar rr = .ok t') ∨ (putTx c t o ar rr = .error .io ∧ t.failAt.isSome = true)
     | some _ => if ar then (∃ t', putTx c t o ar rr = .ok t') ∨ (putTx c t o ar rr = .error .io ∧ t.failAt.isSome = true)
                 else putTx c t o ar rr = .error .exists_ := by
+  have hnb : NoBucket t.kv := ht ▸ hi.noBucket
   unfold putTx
   rw [ht, getTx_spec hk hi]
   cases hg : absGet m o.id with
@@ -502,14 +530,15 @@ theorem putTx_result {c : Cfg} {P : Obj → Prop} {kv : KV} {m : Abs} (hk : Keys
     | false =>
       simp only [Bool.false_eq_true, ↓reduceIte]
       cases hp : t.put (dataKey c o.id) (.obj o) with
-      | error e => right; obtain ⟨h1, h2⟩ := Tx.put_err hp; subst h1; exact ⟨rfl, h2⟩
+      | error e => right; obtain ⟨h1, h2⟩ := Tx.put_err hnb hp; subst h1; exact ⟨rfl, h2⟩
       | ok t1 =>
         simp only
         cases hq : putIndexes c o none c.indexes t1 with
         | ok t' => left; exact ⟨t', rfl⟩
         | error e =>
           right
-          obtain ⟨h1, h2⟩ := putIndexes_err c o none c.indexes t1 e hq
+          obtain ⟨h1, h2⟩ := putIndexes_err c o none c.indexes t1 e
+            (by rw [(Tx.put_ok hp).1]; exact hnb.put _ (by simp)) hq
           subst h1; rw [(Tx.put_ok hp).2] at h2; exact ⟨rfl, h2⟩
   | some x =>
     simp only
@@ -518,14 +547,15 @@ theorem putTx_result {c : Cfg} {P : Obj → Prop} {kv : KV} {m : Abs} (hk : Keys
     | true =>
       simp only [Bool.not_true, Bool.false_eq_true, ↓reduceIte]
       cases hp : t.put (dataKey c o.id) (.obj o) with
-      | error e => right; obtain ⟨h1, h2⟩ := Tx.put_err hp; subst h1; exact ⟨rfl, h2⟩
+      | error e => right; obtain ⟨h1, h2⟩ := Tx.put_err hnb hp; subst h1; exact ⟨rfl, h2⟩
       | ok t1 =>
         simp only
         cases hq : putIndexes c o (some x) c.indexes t1 with
         | ok t' => left; exact ⟨t', rfl⟩
         | error e =>
           right
-          obtain ⟨h1, h2⟩ := putIndexes_err c o (some x) c.indexes t1 e hq
+          obtain ⟨h1, h2⟩ := putIndexes_err c o (some x) c.indexes t1 e
+            (by rw [(Tx.put_ok hp).1]; exact hnb.put _ (by simp)) hq
           subst h1; rw [(Tx.put_ok hp).2] at h2; exact ⟨rfl, h2⟩
 
 theorem deleteTx_result {c : Cfg} {P : Obj → Prop} {kv : KV} {m : Abs} (hk : KeysOK c P) (hi : Inv c P kv m)
